@@ -127,6 +127,16 @@ def runtime_namespace(extra=None):
                 st.extend(graph[x].jump_targets)
         return b in seen
 
+    def block_name(kind, idx):
+        return str(kind) + '_block_' + str(idx)
+
+    def region_name(kind, idx):
+        return str(kind) + '_region_' + str(idx)
+
+    def var_name(kind, idx):
+        return '__scfg_' + str(kind) + '_var_' + str(idx) + '__'
+
+    ns.update(block_name=block_name, region_name=region_name, var_name=var_name)
     ns.update(reach1=reach1, implies=implies, distinct=distinct, is_sorted=is_sorted, updated=updated, removed=removed,
               without=without, card=card, get=get, same_elements=same_elements, replace=dataclasses.replace)
     from numba_scfg.core.datastructures import basic_block as bb
